@@ -1,4 +1,5 @@
 import Proofs.PageSet
+import Proofs.HeadlinesAll
 /-! C01 — page set fidelity, in full: for every history of write requests (without `clear`, which starts a
     new index) on a fresh index with any constructor rules, over well-formed LRUs (each submitted byte
     string cuts into at least one stem), with the rules re-supplied as the API requires (no request
@@ -80,5 +81,46 @@ theorem C01_resubmit (s : State) (stems : LRU) (crawled : Bool) (h0 : 0 < s.trie
 /-- non-vacuity: a two-request history meeting every hypothesis -/
 example : OpWf (.addPage [97, 124, 98, 124] true) ∧ OpWf (.addLinks [([97, 124], [99, 124])]) := by
   constructor <;> simp [OpWf, lruIter, lruIterGo, Layout.sep]
+
+section EveryHistory
+open Traph State Pag Layout
+/-! ### every history (Proofs/Discipline, SinceClear, ReachableAll, HeadlinesAll) -/
+
+/-- EVERY HISTORY, `clear` and `reopen` included, no request assumed away: the only hypotheses are that byte strings cut into at least one stem (`OpWf`), rule anchors are whole LRUs (`rulesCanonical`, `Canon`) and the caller re-supplies on `reopen` the rules the index carries, as the API requires (`Disciplined`); `clear` acts as a reset (`sinceClear`).  -/
+theorem C01_pages_all (cfg : Config) (dflt : Rule) (rules : List (Bytes × Rule)) (ops : List Op)
+    (hr : rulesCanonical rules) (hwf : ∀ op ∈ sinceClear ops, OpWf op)
+    (hd : Disciplined (State.fresh cfg dflt rules []).1 ops) :
+    ∃ t, Shape ((State.fresh cfg dflt rules []).1.run ops) t ∧
+      ∀ p, IsPage ((State.fresh cfg dflt rules []).1.run ops) t p ↔
+        ∃ op ∈ sinceClear ops, ∃ x ∈ op.pages, x.1 = p :=
+  Traph.C01_pages_all cfg dflt rules ops hr hwf hd
+
+/-- the same for the next clause of the property -/
+theorem C01_crawled_all (cfg : Config) (dflt : Rule) (rules : List (Bytes × Rule)) (ops : List Op)
+    (hr : rulesCanonical rules) (hwf : ∀ op ∈ sinceClear ops, OpWf op)
+    (hd : Disciplined (State.fresh cfg dflt rules []).1 ops) :
+    ∃ t, Shape ((State.fresh cfg dflt rules []).1.run ops) t ∧
+      ∀ p, (IsCrawled ((State.fresh cfg dflt rules []).1.run ops) t p →
+              ∃ op ∈ sinceClear ops, ∃ x ∈ op.pages, x.1 = p ∧ x.2.2 = true) ∧
+           ((∃ op ∈ sinceClear ops, ∃ x ∈ op.pages, x.1 = p ∧ x.2.1 = true) →
+              IsCrawled ((State.fresh cfg dflt rules []).1.run ops) t p) :=
+  Traph.C01_crawled_all cfg dflt rules ops hr hwf hd
+
+/-- the same for the next clause of the property -/
+theorem C01_enumeration_all (cfg : Config) (dflt : Rule) (rules : List (Bytes × Rule)) (ops : List Op)
+    (hr : rulesCanonical rules) (hwf : ∀ op ∈ sinceClear ops, OpWf op)
+    (hd : Disciplined (State.fresh cfg dflt rules []).1 ops) :
+    (∀ lru, (∃ c, (lru, c) ∈ ((State.fresh cfg dflt rules []).1.run ops).pagesIter) ↔
+        ∃ op ∈ sinceClear ops, ∃ x ∈ op.pages, lru = x.1.flatten) ∧
+    ((((State.fresh cfg dflt rules []).1.run ops).pagesIter).map (·.1)).Nodup :=
+  Traph.C01_enumeration_all cfg dflt rules ops hr hwf hd
+
+/-- the same for the next clause of the property -/
+theorem C01_invariants_all {s : State} (h : Reachable s) :
+    ∃ t, Shape s t ∧ Inv s t ∧ SizeOk s t ∧ ParOk s t 0 ∧ MarkOk s t ∧ LkOk s t [] ∧ LinksOk s ∧ RulesOk s ∧
+      Whole s ∧ HeaderStub s ∧ ∃ L, Graph s t L :=
+  Traph.reachable_invariants h
+
+end EveryHistory
 
 end Traph.Props
